@@ -32,6 +32,9 @@ def _case(draw):
     # landing in one batching window) - every caller must still be answered with its own key's outcome
     calls = draw(B.timed_calls(10, cfg, bdur, B.NAMES[:draw(st.integers(1, 2))] if family == 'same-key' else B.NAMES,
                                explicit_keys=family != 'same-key'))
+    for c in calls:
+        if draw(st.integers(0, 5)) == 0:
+            c['chain'] = draw(st.integers(1, 2))      # the caller asks again for its key the moment it has been answered
     two = draw(st.integers(0, 3)) == 0
     if two:
         for c in calls:
@@ -44,7 +47,8 @@ def _case(draw):
             behave[k] = kind
     return {'cfg': cfg, 'calls': calls, 'behave': behave, 'order': draw(st.sampled_from(['fwd', 'rev', 'rot'])),
             'bdur': bdur, 'idur': draw(st.sampled_from([0, 0, H.U, 4 * H.U])), 'mutate': None, 'fresh': 1,
-            'raise_type': draw(st.sampled_from(sorted(H.RAISE_TYPES))), 'two_batchers': two}
+            'raise_type': draw(st.sampled_from(sorted(H.RAISE_TYPES))), 'two_batchers': two,
+            'twice_gap': draw(st.sampled_from([0, 0, 4 * H.U, 0.25]))}
 
 
 def strategy(tier):
